@@ -1058,4 +1058,135 @@ theorem specStep_no_panic (hA : ProcessApplicable A) {L : Log A} (hL : FinalReac
   | restart i => simp [specStep]
   | hist i cached => simp [specStep]
 
+/-! ### the same with the pre-save listener's veto (`ReachableV`, for `no_panic_of_applicable_veto`) -/
+
+/-- The state obtained by replaying the log is reachable by commands the listener let through. -/
+def FinalReachableV (L : Log A) : Prop := ∀ w, finalOf L = some w → ReachableV A w.st
+
+theorem finalReachableV_nil : FinalReachableV ([] : Log A) := by
+  intro w hw; simp [finalOf, baseOf] at hw
+
+theorem specStep_reachableV (hiv : A.initVersion ≤ 1) {L : Log A} (hL : FinalReachableV L)
+    (op : Op A) : FinalReachableV (specStep L op).1 := by
+  cases op with
+  | add i actor ic wf =>
+    simp only [specStep]
+    by_cases hne : L = []
+    · subst hne
+      simp only [ne_eq, not_true_eq_false, if_false]
+      cases hp : A.processInit ic with
+      | error err => exact hL
+      | ok ev =>
+        cases wf
+        · simp only [Bool.false_eq_true, if_false]
+          intro w hw
+          have : A.initVersion = 0 ∨ A.initVersion = 1 := by omega
+          rcases this with h0 | h1
+          · simp [finalOf, baseOf, replayN, h0, applyStored] at hw
+            rw [← hw]; exact ReachableV.init ic ev hp
+          · simp [finalOf, baseOf, replayN, h1] at hw
+            rw [← hw]; exact ReachableV.init ic ev hp
+        · exact hL
+    · simp [hne]; exact hL
+  | cmd i c wf =>
+    simp only [specStep]
+    cases hf : finalOf L with
+    | none => exact hL
+    | some w =>
+      have hne : L ≠ [] := by intro h0; subst h0; simp [finalOf, baseOf] at hf
+      have hRw := hL w hf
+      simp only []
+      split
+      · exact hL
+      · unfold specCommand
+        cases hp : A.process w.st c.details with
+        | error err =>
+          intro w' hw'
+          simp only [] at hw'
+          rw [finalOf_append hiv hne hf, applyStored_nonsuccess (by intro evs; simp)] at hw'
+          cases hw'; exact hRw
+        | ok evs =>
+          cases evs with
+          | nil => exact hL
+          | cons ev evs =>
+            simp only []
+            cases ha : applyEvents A w.st (ev :: evs) with
+            | none => exact hL
+            | some s' =>
+              simp only []
+              cases hps : A.preSave s' (ev :: evs) with
+              | some err => exact hL
+              | none =>
+                intro w' hw'
+                simp only [] at hw'
+                rw [finalOf_append hiv hne hf] at hw'
+                simp [applyStored, ha] at hw'
+                rw [← hw']
+                exact ReachableV.step w.st s' c.details (ev :: evs) hRw hp ha hps
+  | get i => simp only [specStep]; split <;> exact hL
+  | snap i wf => simp only [specStep]; split <;> exact hL
+  | restart i => exact hL
+  | hist i cached => exact hL
+
+theorem reachableV_final (hiv : A.initVersion ≤ 1) (ops : List (Op A)) :
+    FinalReachableV (specRun ([] : Log A) ops) := by
+  have : ∀ (L : Log A), FinalReachableV L → FinalReachableV (specRun L ops) := by
+    induction ops with
+    | nil => intro L h; exact h
+    | cons op rest ih =>
+      intro L hL
+      simp only [specRun, List.foldl_cons]
+      exact ih _ (specStep_reachableV hiv hL op)
+  exact this [] finalReachableV_nil
+
+/-- Histories with `drop_aggregate`: deletion empties the log, and the empty log is trivially
+fine. -/
+theorem reachableV_finalH (hiv : A.initVersion ≤ 1) (ops : List (HOp A)) :
+    FinalReachableV (specRunH ([] : Log A) ops) := by
+  have : ∀ (L : Log A), FinalReachableV L → FinalReachableV (specRunH L ops) := by
+    induction ops with
+    | nil => intro L h; exact h
+    | cons o rest ih =>
+      intro L hL
+      simp only [specRunH, List.foldl_cons]
+      cases o with
+      | op o' => exact ih _ (specStep_reachableV hiv hL o')
+      | drop i => exact ih _ finalReachableV_nil
+  exact this [] finalReachableV_nil
+
+theorem specStep_no_panic_veto (hA : ProcessApplicableV A) {L : Log A} (hL : FinalReachableV L)
+    (op : Op A) : (specStep L op).2 ≠ some .panic := by
+  cases op with
+  | add i actor ic wf =>
+    simp only [specStep]
+    split
+    · simp
+    · cases A.processInit ic <;> simp
+      split <;> simp
+  | cmd i c wf =>
+    simp only [specStep]
+    cases hf : finalOf L with
+    | none => simp
+    | some w =>
+      simp only []
+      split
+      · simp
+      · unfold specCommand
+        cases hp : A.process w.st c.details with
+        | error err => simp
+        | ok evs =>
+          cases evs with
+          | nil => simp
+          | cons ev evs =>
+            have := hA w.st c.details (ev :: evs) (hL w hf) hp
+            cases ha : applyEvents A w.st (ev :: evs) with
+            | none => simp [ha] at this
+            | some s' =>
+              simp only [ha]
+              cases A.preSave s' (ev :: evs) <;> simp
+  | get i => simp only [specStep]; split <;> simp
+  | snap i wf => simp only [specStep]; split <;> simp; split <;> simp
+  | restart i => simp [specStep]
+  | hist i cached => simp [specStep]
+
 end Refine
